@@ -696,6 +696,50 @@ func c19Scenarios(tier string) []*world.Scenario {
 		out[len(out)-1].Name = fmt.Sprintf("C19/slow-reader/reply%d/d%d", len(rep), b)
 		out[len(out)-1].Family = "slow-reader"
 	}
+	// buffers released by a connection that died inside a message are reset before the next connection uses them
+	for _, kind := range []string{"backend-close", "backend-rst"} {
+		for _, cut := range []int{1, 3, 7} {
+			sc := BackendLossMidReply(kind, cut, b)
+			sc.Name = fmt.Sprintf("C19/backend-loss-mid-reply/%s/cut%d/d%d", kind, cut, b)
+			sc.Family = "released-buffers"
+			sc.Check = func(w *world.World) []world.Violation {
+				c := w.Clients[0]
+				rs, rest, malformed := world.SplitReplies(c.Received)
+				if malformed || len(rest) > 0 || len(rs) > 2 {
+					return []world.Violation{{Sig: "slow-reader-stream-corrupt", Msg: fmt.Sprintf("client stream %q", c.Received)}}
+				}
+				for j, r := range rs {
+					if !bytes.Equal(r, c.Spec.Expect[j]) && !world.IsError(r) {
+						return []world.Violation{{Sig: "slow-reader-stream-corrupt", Msg: fmt.Sprintf("request %d (%q) was answered %q; the node sent %q", j, c.Spec.Reqs[j], r, c.Spec.Expect[j])}}
+					}
+				}
+				if len(rs) < 2 && !c.ProxyClosed {
+					return []world.Violation{{Sig: "slow-reader-stream-corrupt", Msg: fmt.Sprintf("after a node died inside a reply, the next reply (over a new connection, in two reads) never completes: client has %q", c.Received)}}
+				}
+				return nil
+			}
+			out = append(out, sc)
+		}
+	}
+	{
+		ab := world.Cmd("set", keysA[0], strings.Repeat("A", 34))
+		victim := []Req{GetReq(keysB[2]), SetReq(keysC[2], "hello")}
+		for _, plen := range []int{9, len(ab) - 1} {
+			for _, cut := range []int{4, 13, 30} {
+				sc := AbortedNeighbour(ab[:plen], false, victim, []int{cut}, 32)
+				sc.Name = fmt.Sprintf("C19/aborted-neighbour/prefix%d/cut%d", plen, cut)
+				sc.Family = "released-buffers"
+				sc.Check = func(w *world.World) []world.Violation {
+					vs := CheckStreams(w, StreamOpts{})
+					for i := range vs {
+						vs[i].Sig = "slow-reader-stream-corrupt"
+					}
+					return append(vs, BackendsWellFormed(w)...)
+				}
+				out = append(out, sc)
+			}
+		}
+	}
 	// production sizes (64 KiB ring part, overflow list behind it): replies of 64 KiB and more to a slow reader
 	for _, sz := range [][]int{{100, 70000, 70000}, {70000, 66000, 100}, {140000, 10, 65536}} {
 		sc := BigSlowRecycle("C19", sz, 60000, b)
